@@ -46,6 +46,10 @@ request, global request, renegotiate_keys: families post, postc, reply) raises i
 pending-call-raises: "a resulting failure is reported through the documented API as an SSHException ... internal errors
 never escape") - for EVERY one of the calls that were waiting when the session ended, not only the first to wake up.
 Every pre script goes through both forms of start_client / start_server (blocking: raises; event: stores).
+Enumerated sub-domains besides the random families ("sweep", sharded over the workers): every text field of every message of the
+connection-stage grammar (75 fields, both roles, 3 calls waiting - one role of each pair inside a held re-key), of the
+authentication-stage grammar (20 fields, while the auth call's request is pending, entry API rotating) and of the INFO_REQUEST
+(x 3 entry APIs x transport class - quick: the two classes in turn), ONE field at a time made undecodable; the invalid bytes rotate with the seed.
 Every family has a fixed share of the cases (run in 3 interleaved rounds with seed streams of their own).
 Bucket = exception class + innermost paramiko frame.  Hangs are "inconclusive", never violations.
 """
@@ -72,7 +76,9 @@ RULE = (
     "authc scripts may end with the peer's DISCONNECT from its grammar (6 templates x 0-2 text-preferring mutations of code / description / "
     "language tag) after 0..n of the script's messages, i.e. while start_client / start_server / renegotiate_keys / the other waiters / an "
     "auth_* call waits (classes bye:<stage>..., bye:description:<decodable|undecodable|empty|malformed>); every pre script runs through both "
-    "the blocking and the event form of start_client / start_server; fixed case share per family (authk: per entry API); "
+    "the blocking and the event form of start_client / start_server; fixed case share per family (authk: per entry API); sweep: enumerated - each single text field of each connection-stage message "
+    "(x role, 3 calls waiting, every other session inside a held re-key), of each authentication-stage message (auth call pending) and of the "
+    "INFO_REQUEST (x entry API x transport class) made undecodable, one at a time (classes sweep:...); "
     "reply: 1-3 rounds per session x role; per round one of 15 application calls that wait for the peer's answer (5 kinds of channel open, "
     "6 channel requests, 4 global requests) is pending and the answer to exactly that call (OPEN_CONFIRMATION/FAILURE, CHANNEL_SUCCESS/FAILURE, "
     "REQUEST_SUCCESS/FAILURE with the ids in use) is sent with 1-2 mutations that prefer the integer fields (ids, reason codes, sizes, ports), "
@@ -1482,7 +1488,8 @@ def run(ctx):
         for i, (ti, fi, p) in enumerate(text_field_sweep([(60, info_request_fields(1))], ctx.seed)):
             for j, method in enumerate(("interactive", "interactive-dumb", "password-fallback")):
                 for k, svc in enumerate((False, True)):
-                    if mine(i * 6 + j * 2 + k):
+                    # quick: one transport class per (field, API) pair, in turn; thorough: both
+                    if mine(i * 6 + j * 2 + k) and (ctx.tier != "quick" or (i + j + k + ctx.seed) % 2 == 0):
                         ctx.count("sweep:authk:" + method)
                         script = build_kbd_script(method, [(1, [])], "success", i + k + ctx.seed, svc)
                         script = [(a, p if q[:1] == b"\x3c" else q) for a, q in script]
@@ -1491,7 +1498,7 @@ def run(ctx):
     # every family gets a FIXED share of the cases (a single one_of over all families left the shares to hypothesis: 4 to 50 wire
     # cases, 30 to 150 authk cases depending on the seed); the shares are run in 3 interleaved rounds, each round and family with a
     # seed stream of its own, so that a budget hit thins all of them about evenly
-    weights = {"pre": 4, "post": 2, "postc": 3, "authc": 3, "authk:interactive": 1, "authk:interactive-dumb": 1, "authk:password-fallback": 1, "auths": 4, "wire": 2}
+    weights = {"pre": 12, "post": 6, "postc": 5, "authc": 7, "authk:interactive": 2, "authk:interactive-dumb": 2, "authk:password-fallback": 2, "auths": 11, "wire": 5}
     for f in [f for f in weights if ":" in f]:
         # the three ways into a keyboard-interactive conversation get a fixed share each
         fam, method = f.split(":")
@@ -1515,10 +1522,10 @@ def run(ctx):
                 print("SLOW %.1fs %s %r" % (d, fc[0], fc[1]))
 
     # the answer-centred family runs on its own (own seed stream, first: a budget hit later on cannot starve it); its cases are paid
-    # for by the other families (760 -> 680 -> 620 quick cases, reply 90 -> 80: the several-waiters sessions of post / postc cost more)
+    # for by the other families (760 -> 680 -> 460 quick cases, reply 90 -> 60: they pay for the several-waiters sessions of post / postc and for the enumerated sweeps)
     if "reply" in fams:
-        ctx.explore(strategies["reply"].map(lambda c: ("reply", c)), timed, ctx.scale(70, 1100), shrink=False, seed_offset=2)
-    total, wsum, rounds = ctx.scale(540, 8100), sum(weights.values()), 3
+        ctx.explore(strategies["reply"].map(lambda c: ("reply", c)), timed, ctx.scale(60, 1100), shrink=False, seed_offset=2)
+    total, wsum, rounds = ctx.scale(460, 8100), sum(weights.values()), 3
     for r in range(rounds):
         for i, f in enumerate(sorted(weights)):
             n = total * weights[f] // wsum
